@@ -17,6 +17,11 @@ Theorem T14_shexp_is_glob : forall url pattern,
 Proof. exact (fun url pattern => shexp_is_glob url pattern ob_shexp_rewrites ob_shexp_anchored). Qed.
 Print Assumptions T14_shexp_is_glob.
 
+(* the polynomial evaluator of glob that the run-time oracle uses is glob *)
+Theorem T14_glob_evaluator : forall p s, glob_run p s = glob p s.
+Proof. exact glob_run_eq. Qed.
+Print Assumptions T14_glob_evaluator.
+
 (* isInNet is masked equality of the four octets (the 32-bit << | & arithmetic included), for all
    strings: invalid pattern or mask = false, host literal or its first IPv4 address. *)
 Theorem T14_isInNet_is_mask : forall e host pattern mask,
